@@ -728,6 +728,20 @@ func (fs *factSet) bufSize() {
 	})
 }
 
+// methodSet: the names of the methods declared on a type, sorted.
+func (fs *factSet) methodSet(typ string) {
+	var ms []string
+	for name := range fs.funcs {
+		if strings.HasPrefix(name, typ+".") {
+			ms = append(ms, strings.TrimPrefix(name, typ+"."))
+		}
+	}
+	sort.Strings(ms)
+	for _, m := range ms {
+		fs.add("methods."+typ, m)
+	}
+}
+
 func collectFacts(dir string) (*factSet, error) {
 	fs, err := loadFacts(dir)
 	if err != nil {
@@ -752,6 +766,9 @@ func collectFacts(dir string) (*factSet, error) {
 		"Program.initInput", "Program.restoreInput", "Program.suspend", "standardRenderer.halt",
 		"Exec", "ExecProcess", "wrapExecCommand", "osExecCommand.SetStdin", "osExecCommand.SetStdout", "osExecCommand.SetStderr")
 	fs.signature("Program.Run")
+	// the method set of the wrapper ExecProcess hands to exec: Run (and everything else) must be
+	// os/exec's own, promoted from the embedded *exec.Cmd; only the three Set… methods are the library's
+	fs.methodSet("osExecCommand")
 	fs.bufSize()
 	fs.lockDiscipline()
 	fs.sendCalls()
